@@ -199,6 +199,18 @@ def gen_case(rng, cid, ood=False, force=None):
     return dict(id=cid, g=g, dbs=dbs, files=files, ops=ops[:14], ood=ood, paint=False)
 
 
+def gen_conv_case(rng, cid):
+    """in-domain dictionaries, then two rounds of Synchronize (each installation once per round, random orders)"""
+    c = gen_case(rng, cid)
+    users = sorted(c["dbs"])
+    r1, r2 = users[:], users[:]
+    rng.shuffle(r1)
+    rng.shuffle(r2)
+    pre = [o for o in c["ops"][:rng.randrange(0, 4)] if o[0] in ("merge", "backup", "export")]
+    c.update(g=0, ops=pre + [("sync", i, None) for i in r1 + r2], conv="rounds", files={})
+    return c
+
+
 def boundary_cases(prefix):
     """hand-aimed at the case splits of the proofs: |o| < / = / > |v| with both signs, absent
     sides, ticks <, =, > and absent, the empty snapshot, and a merger whose storage held -N
@@ -226,6 +238,20 @@ def boundary_cases(prefix):
         ents = {k: v(2, 1) for k in [k1, k2, k3][:nent]}
         add(-nent, (10, {k1: v(1, 1)}), (20, ents), [("merge", 0, 1)])
         add(-nent, (10, {}), (20, ents), [("backup", 1, None), ("restore", 0, 1)], paint=True)
+    # Synchronize between three installations (replays of Udb/Examples.v ex_sync_*): back-to-back double syncs do not
+    # spread u2's entries to u0; two rounds in different orders make all agree on (key, |commits|); a tie of
+    # magnitudes with opposite signs keeps each side's sign for ever
+    w3 = {0: (10, {k1: v(3, 3)}), 1: (20, {k1: v(-5, 4), k2: v(1, 1)}), 2: (10, {k3: v(-1, 2)})}
+    out.append(dict(id="%s%d" % (prefix, n), g=0, files={}, ood=False, paint=False, conv="anyorder", dbs=dict(w3),
+                    ops=[("sync", i, None) for i in (0, 0, 1, 1, 2, 2)]))
+    n += 1
+    out.append(dict(id="%s%d" % (prefix, n), g=0, files={}, ood=False, paint=False, conv="rounds", dbs=dict(w3),
+                    ops=[("sync", i, None) for i in (0, 1, 2, 2, 0, 1)]))
+    n += 1
+    out.append(dict(id="%s%d" % (prefix, n), g=0, files={}, ood=False, paint=False, conv="rounds",
+                    dbs={0: (10, {k1: v(3, 3)}), 1: (20, {k1: v(-3, 3)})},
+                    ops=[("sync", i, None) for i in (0, 1, 0, 1, 0, 1)]))
+    n += 1
     # out-of-domain, model agreement only: a key with a line break splits into two snapshot lines and the
     # packed value of the first leaks into the key of the second (kept out of the random stream: once such
     # a key is re-packed by later merges its bytes depend on the double, which the model erases)
@@ -493,6 +519,7 @@ def run(ctx):
     cases = boundary_cases("b")
     cases += [gen_case(rng, "g%d" % i) for i in range(ncases)]
     cases += [gen_case(rng, "o%d" % i, ood=True) for i in range(nood)]
+    cases += [gen_conv_case(rng, "v%d" % i) for i in range(12 if ctx.tier == "quick" else 80)]
     unit = []
     for val in OOD_VALUES + [b"c=12 d=1e-3 t=99", b"c=-5 d=0 t=1099511627776", b"c=2147483647 d=1 t=18446744073709551615"]:
         unit.append("U " + hx(val))
@@ -559,7 +586,10 @@ def run(ctx):
     fails = []
     stats = dict(cases=len(cases), ops=0, merging_ops=0, roundtrips=0, idempotence_pairs=0, empty_snapshot_larger_tick=0,
                  empty_snapshot_tick_kept=0, op_kinds={}, merge_classes={}, ood_cases=sum(1 for c in cases if c["ood"]),
-                 garbage_cases=sum(1 for c in cases if c["g"] != 0))
+                 garbage_cases=sum(1 for c in cases if c["g"] != 0),
+                 sync_two_rounds_cases=0, sync_two_rounds_agree=0, sync_two_rounds_sign_differs=0,
+                 sync_back_to_back_cases=0, sync_back_to_back_agree=0)
+    conv_fail = []
     sigs = set()
     unpack_fail = 0
     for c in cases:
@@ -641,6 +671,22 @@ def run(ctx):
                 fsrc[x] = after
             if k == "export":
                 fsrc.pop(x, None)
+        if c.get("conv") and len(o.get("ops", [])) == len(c["ops"]):
+            # Synchronize convergence, observed on the implementation's final dictionaries (well-formed keys)
+            fin = [state[i] for i in sorted(state) if state[i] is not None]
+            mg = [{kk: abs(vv[0]) for kk, vv in d["ents"].items() if wf_key(kk)} for d in fin]
+            sg = [{kk: vv[0] for kk, vv in d["ents"].items() if wf_key(kk)} for d in fin]
+            agree = all(m == mg[0] for m in mg)
+            if c["conv"] == "rounds":
+                stats["sync_two_rounds_cases"] += 1
+                stats["sync_two_rounds_agree"] += 1 if agree else 0
+                if agree and any(x != sg[0] for x in sg):
+                    stats["sync_two_rounds_sign_differs"] += 1
+                if not agree:
+                    conv_fail.append(c["id"])
+            else:
+                stats["sync_back_to_back_cases"] += 1
+                stats["sync_back_to_back_agree"] += 1 if agree else 0
     # ---- memcheck support run (plain build, ordinary automatic UserDbMerger)
     vg = run_memcheck(ctx, work)
 
@@ -666,6 +712,13 @@ def run(ctx):
                                "theorem C17_merge_tick_max carries the hypothesis that at least one entry was put; judged not to break the "
                                "property (nothing of that snapshot enters the dictionary, so no entry can carry a tick above the "
                                "dictionary's), see DESIGN.md section 9" % (stats["empty_snapshot_larger_tick"], stats["empty_snapshot_tick_kept"]),
+        "sync_convergence": "observation, not a clause of the property: after two rounds of Synchronize (every installation once per round, "
+                            "any orders) all installations agreed on every well-formed key and commit magnitude in %d of %d cases on the "
+                            "implementation (in %d of them some sign differs: a tie |ours| = |theirs| keeps each side's own sign, "
+                            "C17_sync_sign_tie_example); with back-to-back double syncs they agreed in %d of %d "
+                            "(C17_sync_twice_any_order_refuted); cases not converged: %s" % (
+                                stats["sync_two_rounds_agree"], stats["sync_two_rounds_cases"], stats["sync_two_rounds_sign_differs"],
+                                stats["sync_back_to_back_agree"], stats["sync_back_to_back_cases"], conv_fail[:5]),
         "mutation_drills": MUTATION_DRILLS,
         "exhaustive": False,
     })
